@@ -238,6 +238,18 @@ def check(tier: str) -> Result:
     k0 = ia.get(K, []) if K is not None else []
     ok = len(k0) == 1 and ext_name(k0[0]) == "jax.random.PRNGKey" and k0[0].args[1] == (ip["seed"],)
     res.add("C15.R1", tree.find_method(ci, "__init__").loc(), "wrappers.JumanjiToGymWrapper.__init__", "initial key is PRNGKey(seed)", ok, f"key attribute {K}: {[txt(k, 3, 60) for k in k0]}")
+    # documented key schedule starts from seed 0 by default (constructor and seed())
+    import ast as _ast
+    for mname in ("__init__", "seed"):
+        mf_ = ci.methods.get(mname)
+        if mf_ is None:
+            continue
+        a_ = mf_.node.args
+        names_ = [x.arg for x in a_.args]
+        dflt_ = dict(zip(names_[len(names_) - len(a_.defaults):], a_.defaults))
+        d_ = dflt_.get("seed")
+        res.add("C15.R1", mf_.loc(), f"wrappers.JumanjiToGymWrapper.{mname}", "the default seed is 0", (isinstance(d_, _ast.Constant) and d_.value == 0 and d_.value is not False) if d_ is not None else None,
+                f"default {_ast.unparse(d_) if d_ is not None else None}")
     r, st, pr, f, _ = run_method(tree, ci, "seed", attrs)
     ks = st.get(K, []) if K is not None else []
     ok = len(ks) == 1 and ext_name(ks[0]) == "jax.random.PRNGKey" and ks[0].args[1] == (pr["seed"],)
